@@ -5,10 +5,12 @@
 package main
 
 import (
+	"context"
 	"errors"
 	"fmt"
 	"math"
 	"math/big"
+	"os"
 	"sort"
 	"strings"
 	"unicode/utf8"
@@ -70,7 +72,31 @@ func initUniverses() {
 	internLab(labels.FromStrings("a", strings.Repeat("y", 63), "b", strings.Repeat("z", 63))) // 128 over two labels
 	internLab(labels.FromStrings("a", strings.Repeat("y", 63), "b", strings.Repeat("z", 64))) // 129 over two labels
 	internLab(labels.FromStrings("a", strings.Repeat("y", 130), "b", "z"))                   // first label already too long
+	// label sets with empty-valued labels (only reach the store through the head appenders, which
+	// must drop them with WithoutEmpty before validation)
+	for _, l := range []labels.Labels{
+		labels.FromStrings("span_id", "", "trace_id", "a"),
+		labels.FromStrings("span_id", "", "trace_id", "b"),
+		labels.FromStrings("trace_id", "c", "zz", ""),
+		labels.FromStrings("a", "", "b", ""),
+		labels.FromStrings("span_id", "", "trace_id", strings.Repeat("x", 120)),                             // 128 + empty label
+		labels.FromStrings("span_id", "", "trace_id", strings.Repeat("x", 119)),                             // 127 + empty label
+		labels.FromStrings("span_id", "", "trace_id", strings.Repeat("x", 121)),                             // 129 + empty label
+		labels.FromStrings("a", strings.Repeat("y", 63), "b", strings.Repeat("z", 63), "c", ""),             // 128 over two + empty
+		labels.FromStrings("span_id", "", "trace_id", strings.Repeat("é", 120)),                             // 128 runes multibyte + empty
+	} {
+		if l.Len() == l.WithoutEmpty().Len() {
+			panic("labels.FromStrings dropped the empty-valued label")
+		}
+		id := internLab(l)
+		base := internLab(l.WithoutEmpty())
+		rawOf[base] = append(rawOf[base], id)
+		emptyVariants = append(emptyVariants, id)
+	}
 }
+
+var rawOf = map[int][]int{} // normalised label id -> ids of label sets with extra empty-valued labels
+var emptyVariants []int
 
 func z(v int64) string {
 	if v < 0 {
@@ -97,6 +123,19 @@ func preamble() string {
 	sb.WriteString("  | _ => 0\n  end.\n")
 	sb.WriteString("Definition X (lab : Z) (v : option Z) (ts : Z) (h : bool) : exemplar := mkEx lab (lab_lens lab) (lab_hash lab) v ts h.\n")
 	sb.WriteString("Definition S (e : exemplar) (n p : Z) (r : option Z) : slot := mkSlot e n p r.\n")
+	// oracle: id of Labels.WithoutEmpty() (computed by calling labels.WithoutEmpty directly)
+	sb.WriteString("Definition lab_ne (i : Z) : Z :=\n  match i with\n")
+	for id, l := range exLabs {
+		ne, ok := exLabID[l.WithoutEmpty().String()]
+		if !ok {
+			panic("normalised label set not in the universe")
+		}
+		if ne != id {
+			sb.WriteString(fmt.Sprintf("  | %d => %d\n", id, ne))
+		}
+	}
+	sb.WriteString("  | _ => i\n  end.\n")
+	sb.WriteString("Definition HE (e : exemplar) : exemplar * (Z * Z) := (e, (lab_ne (e_lab e), lab_hash (lab_ne (e_lab e)))).\n")
 	return sb.String()
 }
 
@@ -284,6 +323,9 @@ type hist struct {
 	wrap    bool
 	maxTs   map[int]int64
 	tried   []tried
+	head    *tsdb.Head // head stream only
+	dir     string
+	sampleT int64
 }
 type tried struct {
 	s int
@@ -305,6 +347,9 @@ func newHist(l, w int64, stream string) *hist {
 }
 
 func (h *hist) record(op, obs string) {
+	if !strings.HasPrefix(op, "HHead") {
+		op = "HPlain (" + op + ")"
+	}
 	h.ops = append(h.ops, op)
 	h.obs = append(h.obs, obs)
 	h.d.Ops = append(h.d.Ops, opDesc{op, obs})
@@ -561,6 +606,229 @@ func (h *hist) finish() {
 	if h.guard() {
 		h.sel(math.MinInt64, math.MaxInt64, msets[0])
 	}
+	if h.head != nil {
+		h.head.Close()
+		os.RemoveAll(h.dir)
+	}
+}
+
+// ---------------------------------------------------------------- head appender entry points
+var outDir string
+
+// newHeadHist opens a real Head (no WAL) with exemplar storage enabled and creates nser series.
+func newHeadHist(l, w int64, nser int, stream string) *hist {
+	dir, err := os.MkdirTemp(outDir, "head")
+	if err != nil {
+		panic(err)
+	}
+	opts := tsdb.DefaultHeadOptions()
+	opts.ChunkRange = 1_000_000_000
+	opts.ChunkDirRoot = dir
+	opts.EnableExemplarStorage = true
+	opts.MaxExemplars.Store(l)
+	opts.OutOfOrderTimeWindow.Store(w)
+	hd, err := tsdb.NewHead(nil, nil, nil, nil, opts, nil)
+	if err != nil {
+		panic(err)
+	}
+	if err := hd.Init(0); err != nil {
+		panic(err)
+	}
+	q, err := hd.ExemplarQuerier(context.Background())
+	if err != nil {
+		panic(err)
+	}
+	h := &hist{ce: q.(*tsdb.CircularExemplarStorage), classes: map[string]bool{}, maxTs: map[int]int64{}}
+	h.head, h.dir, h.sampleT = hd, dir, 2000
+	h.d = desc{Len: l, Win: w, Stream: stream}
+	h.win = w
+	app := hd.Appender(context.Background())
+	for s := 0; s < nser; s++ {
+		if _, err := app.Append(0, series[s], 1000, 1); err != nil {
+			panic(err)
+		}
+	}
+	if err := app.Commit(); err != nil {
+		panic(err)
+	}
+	return h
+}
+
+// headAdd sends the exemplars through one head appender (v1: AppendExemplar per exemplar,
+// v2: one Append of a sample with AOptions.Exemplars) and commits.
+func (h *hist) headAdd(v2 bool, s int, es []exemplar.Exemplar) {
+	if !h.guard() {
+		return
+	}
+	it := make([]string, len(es))
+	for i, e := range es {
+		it[i] = "HE " + exStr(e)
+		if e.Labels.Len() != e.Labels.WithoutEmpty().Len() {
+			h.classes["head-empty-valued-label"] = true
+		}
+	}
+	before := takeDump(h.ce)
+	if ch := before.chain(s); len(ch) > 0 {
+		for _, e := range es {
+			n := e
+			n.Labels = e.Labels.WithoutEmpty()
+			if ch[len(ch)-1].Ex.Equals(n) {
+				h.classes["head-duplicate-of-newest"] = true
+				if n.Labels.Len() != e.Labels.Len() {
+					h.classes["head-duplicate-of-newest-with-empty-label"] = true
+				}
+			}
+		}
+	}
+	var accepted []exemplar.Exemplar
+	h.do(fmt.Sprintf("HHead %s %d %s", gallina.Bool(v2), s, gallina.List(it)), func() string {
+		var errs []string
+		ctx := context.Background()
+		if v2 {
+			h.classes["head-v2"] = true
+			app := h.head.AppenderV2(ctx)
+			h.sampleT++
+			_, err := app.Append(0, series[s], 0, h.sampleT, 1, nil, nil, storage.AOptions{Exemplars: es})
+			if err != nil {
+				var pe *storage.AppendPartialError
+				if !errors.As(err, &pe) {
+					panic(err)
+				}
+				for _, x := range pe.ExemplarErrors {
+					errs = append(errs, errStr(x))
+				}
+			}
+			if err := app.Commit(); err != nil {
+				panic(err)
+			}
+		} else {
+			h.classes["head-v1"] = true
+			app := h.head.Appender(ctx)
+			for _, e := range es {
+				if _, err := app.AppendExemplar(0, series[s], e); err != nil {
+					errs = append(errs, errStr(err))
+				}
+			}
+			if err := app.Commit(); err != nil {
+				panic(err)
+			}
+		}
+		for _, x := range errs {
+			h.classes["head-err-"+x] = true
+		}
+		if len(errs) == 0 {
+			accepted = es
+		}
+		return "BErrs " + gallina.List(errs)
+	})
+	if h.dead {
+		return
+	}
+	for _, e := range es {
+		n := e
+		n.Labels = e.Labels.WithoutEmpty()
+		h.tried = append(h.tried, tried{s, n})
+	}
+	for _, e := range accepted {
+		if e.Ts > h.maxTs[s] {
+			h.maxTs[s] = e.Ts
+		}
+	}
+	after := takeDump(h.ce)
+	if after.next != before.next && before.slots[before.next].Live {
+		h.classes["evict"] = true
+	}
+}
+
+// withEmpty replaces the label set by one with an extra empty-valued label, when the universe has one.
+func withEmpty(r *gen.Rand, e exemplar.Exemplar) exemplar.Exemplar {
+	if v := rawOf[exLabID[e.Labels.String()]]; len(v) > 0 {
+		e.Labels = exLabs[gen.Pick(r, v)]
+	}
+	return e
+}
+
+func genHead(r *gen.Rand) *hist {
+	l := gen.Pick(r, []int64{1, 2, 3, 3, 4, 6})
+	w := gen.Pick(r, []int64{0, 10, 30, 100})
+	nser := 1 + r.Intn(3)
+	h := newHeadHist(l, w, nser, "head")
+	n := int(r.Range(12, 40))
+	for i := 0; i < n && !h.dead; i++ {
+		switch k := r.Intn(100); {
+		case k < 76:
+			cnt := 1
+			if r.Chance(1, 4) {
+				cnt = 2 + r.Intn(2)
+			}
+			s := r.Intn(nser)
+			var es []exemplar.Exemplar
+			for j := 0; j < cnt; j++ {
+				var e exemplar.Exemplar
+				ch := takeDump(h.ce).chain(s)
+				switch m := r.Intn(10); {
+				case m < 2 && len(ch) > 0: // exact duplicate of the newest retained exemplar
+					e = ch[len(ch)-1].Ex
+				case m < 3 && len(es) > 0: // duplicate inside the batch
+					e = es[len(es)-1]
+				case m < 5: // label set at the limit
+					_, e = h.nextAdd(r, nser, h.win)
+					e.Labels = exLabs[gen.Pick(r, []int{8, 9, 10, 11, 13})]
+				default:
+					_, e = h.nextAdd(r, nser, h.win)
+				}
+				if r.Chance(1, 2) {
+					e = withEmpty(r, e)
+				} else if r.Chance(1, 8) {
+					e.Labels = exLabs[gen.Pick(r, emptyVariants)]
+				}
+				es = append(es, e)
+			}
+			h.headAdd(r.Bool(), s, es)
+		case k < 86:
+			lo := r.Range(60, 140)
+			hi := lo + r.Range(-2, 40)
+			if r.Chance(1, 3) {
+				lo, hi = math.MinInt64, math.MaxInt64
+			}
+			h.sel(lo, hi, gen.Pick(r, msets))
+		case k < 90:
+			h.iter()
+		case k < 95:
+			h.dump()
+		default:
+			h.resize(r.Range(1, 6))
+		}
+	}
+	h.finish()
+	return h
+}
+
+func corpusHead() []*hist {
+	var out []*hist
+	E := func(lab labels.Labels, v float64, ts int64) exemplar.Exemplar {
+		return exemplar.Exemplar{Labels: lab, Value: v, Ts: ts, HasTs: true}
+	}
+	b := labels.FromStrings("trace_id", "b")
+	bE := labels.FromStrings("span_id", "", "trace_id", "b")
+	x128 := labels.FromStrings("trace_id", strings.Repeat("x", 120))
+	x128E := labels.FromStrings("span_id", "", "trace_id", strings.Repeat("x", 120))
+	for _, v2 := range []bool{false, true} {
+		// duplicate of the newest with an extra empty-valued label: silent no-op through either entry point
+		h := newHeadHist(2, 10, 1, "corpus")
+		h.d.Corpus = fmt.Sprintf("head-empty-label-duplicate-v2=%v", v2)
+		h.headAdd(v2, 0, []exemplar.Exemplar{E(labels.FromStrings("trace_id", "a"), 1, 90)})
+		h.headAdd(v2, 0, []exemplar.Exemplar{E(b, 1, 100)})
+		h.headAdd(v2, 0, []exemplar.Exemplar{E(bE, 1, 100)})
+		h.headAdd(!v2, 0, []exemplar.Exemplar{E(bE, 1, 100)})
+		h.sel(0, 200, msets[0])
+		// exactly 128 runes plus an empty-valued label: accepted, stored without the empty label
+		h.headAdd(v2, 0, []exemplar.Exemplar{E(x128E, 1, 110)})
+		h.headAdd(v2, 0, []exemplar.Exemplar{E(x128, 1, 110), E(x128E, 2, 111), E(x128E, 2, 111)})
+		h.finish()
+		out = append(out, h)
+	}
+	return out
 }
 
 // ---------------------------------------------------------------- generators
@@ -823,10 +1091,11 @@ func corpus() []*hist {
 
 func main() {
 	f := gallina.ParseFlags()
+	outDir = f.Out
 	initUniverses()
 	initMatchers()
 	meta := gallina.NewMeta("C21", f.Seed, f.Tier)
-	meta.Rule = "one evaluation = one history (15-70 operations) on a real CircularExemplarStorage; streams: fixed corpus, long (1-2 series, ring 8-24, 80-160 operations), bounded-exhaustive (thorough tier: all 4-operation histories over a 6-symbol alphabet for capacities 2 and 3), structured (adds steered to in-order / equal timestamp / out-of-order inside, at the edge of and beyond the window / duplicates / variations of earlier exemplars / label sets around 128 runes, resize to 0, -1, +-1, random, window changes, selects with several matcher sets, iterate, dumps), boundary (timestamps and windows at the int64 extremes); non-trivial = the history stores an exemplar out of order or evicts or resizes a non-empty ring; distinct by the printed operation list"
+	meta.Rule = "one evaluation = one history (15-70 operations) on a real CircularExemplarStorage; streams: fixed corpus, head (a real Head with exemplar storage: exemplars sent through Appender.AppendExemplar+Commit and AppenderV2.Append(AOptions.Exemplars)+Commit, 1-3 per appender, label sets with empty-valued labels, at 127/128/129 runes with and without an extra empty label, duplicates of the newest with/without an extra empty label), long (1-2 series, ring 8-24, 80-160 operations), bounded-exhaustive (thorough tier: all 4-operation histories over a 6-symbol alphabet for capacities 2 and 3), structured (adds steered to in-order / equal timestamp / out-of-order inside, at the edge of and beyond the window / duplicates / variations of earlier exemplars / label sets around 128 runes, resize to 0, -1, +-1, random, window changes, selects with several matcher sets, iterate, dumps), boundary (timestamps and windows at the int64 extremes); non-trivial = the history stores an exemplar out of order or evicts or resizes a non-empty ring; distinct by the printed operation list"
 	cf := &gallina.CaseFile{Dir: f.Out, Type: "case", PerShard: 40, Preamble: preamble(), Footer: gallina.StdFooter}
 	id := 0
 	seen := map[string]bool{}
@@ -861,6 +1130,9 @@ func main() {
 	for _, h := range corpus() {
 		emit(h)
 	}
+	for _, h := range corpusHead() {
+		emit(h)
+	}
 	n := f.Count(300, 1000)
 	for i := 0; i < n; i++ {
 		r := gen.Fork(f.Seed, i)
@@ -869,6 +1141,8 @@ func main() {
 			emit(genBoundary(r))
 		case i%25 == 7:
 			emit(genLong(r))
+		case i%5 == 3:
+			emit(genHead(r))
 		default:
 			emit(genHistory(r, "structured"))
 		}
